@@ -49,10 +49,12 @@ def interleaved_job(jid, pa, pb, sched, fresh=True):
             steps.append({"op": "new", "i": k})
             if LIBDIRS:
                 pos.setdefault("freshimport", []).append(len(steps)); steps.append({"op": "eval", "i": k, "text": "(import (onlya))"})
+            # what other instances defined (x, or the variable of the program file another instance ran) is unbound here
+            pos.setdefault("freshunbound", []).append(len(steps)); steps.append({"op": "eval", "i": k, "text": "program-of-a" if LIBDIRS else "x"})
             pos["fresh"].append(len(steps)); steps.append({"op": "eval", "i": k, "text": "(cond ((car '(#f)) 1) (else (tick! 3)))"})
             steps.append({"op": "drop", "i": k})
             k += 1
-    return {"id": jid, "kind": "session", "steps": steps}, pos
+    return {"id": jid, "kind": "session", "steps": steps, "own_thread": True}, pos
 
 
 def run(ctx):
@@ -114,6 +116,12 @@ def run(ctx):
                     o = rs[at] if at < len(rs) else {"k": "missing"}
                     if not (o.get("k") == "error" and o.get("kind") == "NotFound"):
                         why = "a new instance without a program directory finds (or fails differently on) a library that exists only next to another instance's program: (import (onlya)) -> %s" % json.dumps(S.to_spec_outcome(o))[:200]
+                        break
+            if not why:
+                for at in pos.get("freshunbound", []):
+                    o = rs[at] if at < len(rs) else {"k": "missing"}
+                    if not (o.get("k") == "error" and o.get("kind") == "Unbound"):
+                        why = "a new instance sees a variable that only another instance defined: %s" % json.dumps(S.to_spec_outcome(o))[:200]
                         break
             if not why:
                 for at in pos["fresh"]:
